@@ -291,6 +291,7 @@ def c16(tier):
             {'kind': 'replay', 'model': M('step_S8', 'step', 'S8'), 'kinds': ['periodic', 'mixed', 'threshold', 'chunky'],
              'sample': 0.01 if q else 0.3, 'extra': ['-opfilter', 'trans']},
             {'kind': 'drive', 'profile': 'transform', 'traces': 120 if q else 2500, 'steps': 40},
+            {'kind': 'drive', 'profile': 'offsetkernel', 'traces': 600 if q else 12000, 'steps': 0},
         ],
     }
 
@@ -324,6 +325,7 @@ def c09(tier):
             {'kind': 'drive', 'profile': 'kernel', 'traces': 300 if q else 6000, 'steps': 0},
             {'kind': 'drive', 'profile': 'aggkernel', 'traces': 200 if q else 4000, 'steps': 0},
             {'kind': 'drive', 'profile': 'transform', 'traces': 120 if q else 2500, 'steps': 40},
+            {'kind': 'drive', 'profile': 'offsetkernel', 'traces': 400 if q else 8000, 'steps': 0},
         ],
     }
 
@@ -337,6 +339,7 @@ def c14(tier):
             {'kind': 'drive', 'profile': 'all', 'traces': 200 if q else 4000, 'steps': 80, 'extra': []},
             {'kind': 'drive', 'profile': 'burst', 'traces': 240 if q else 4000, 'steps': 0},
             {'kind': 'drive', 'profile': 'transform', 'traces': 120 if q else 2500, 'steps': 40},
+            {'kind': 'drive', 'profile': 'offsetkernel', 'traces': 400 if q else 8000, 'steps': 0},
             {'kind': 'drive', 'profile': 'kernel', 'traces': 200 if q else 4000, 'steps': 0},
         ],
     }
